@@ -14,6 +14,7 @@ EXTENDS RegexApi, Json, IOUtils
 Tier  == IF "TIER" \in DOMAIN IOEnv THEN IOEnv.TIER ELSE "quick"
 Quick == Tier = "quick"
 HistLen == IF Quick THEN 3 ELSE 4
+HistSubjects == IF Quick THEN {1, 2, 4} ELSE 1..4            \* indexes into Subjects: quick leaves out "ba"
 
 \* ---------------- string-method grid --------------------------------------------------------------
 RECURSIVE Words(_, _)
@@ -52,7 +53,7 @@ Idle == UNCHANGED <<tid, step, mli, bad>>
 EnumNext ==
   /\ ph = "start" /\ Idle
   /\ \/ /\ ph' = "space"
-        /\ cur' = [kind |-> "histories", ops |-> Ops, len |-> HistLen,
+        /\ cur' = [kind |-> "histories", ops |-> Ops, len |-> HistLen, subjects |-> HistSubjects,
                    assign |-> [s \in 1..Len(Subjects) |-> [k \in 1..Len(Ops) |-> IF Ops[k] \in AssignOps THEN AssignVal(Ops[k], Len(Subjects[s])) ELSE Undef]]]
      \/ \E p \in 1..Len(Patterns) : \E fl \in 1..Len(FlagSets) :
           /\ ph' = "cfg"
